@@ -200,3 +200,22 @@ package gtab
 //@     invariant forall k int :: 0 <= k && k < iter ==> seq[a+1+k] == pre(seq[skipPos[k]])
 //@     invariant forall q int :: a + 1 + iter <= q && q < len(seq) ==> seq[q] == pre(seq[q])
 //@     exit_assert forall k int :: 0 <= k && k < len(skipPos) ==> seq[a+1+k] == pre(seq[skipPos[k]])
+
+// Info.Encode (GSUB/GPOS header, version 1.0): the three list offsets are
+// 16-bit offsets from the start of the table; checked as an encoder (every
+// offset stored must fit).  The list encoders are not under contract here.
+//@ assume func (info ScriptListInfo) encode() (res []byte)
+//@   ensures isnil(res) || fresh(res)
+//@   modifies nothing
+//@ assume func (info FeatureListInfo) encode() (res []byte)
+//@   ensures isnil(res) || fresh(res)
+//@   modifies nothing
+//@ assume func (ll LookupList) encode() (res []byte)
+//@   ensures isnil(res) || fresh(res)
+//@   modifies nothing
+//@ func (info *Info) Encode() (res []byte)   props: C08
+//@   encoder
+//@   requires info != nil
+//@   opt assume_make=1
+//@   may_panic
+//@   modifies nothing
